@@ -25,6 +25,9 @@ type ClosureOpts struct {
 	Validate bool
 	// OnStep is called after every controller step with the calls it made.
 	OnStep func(ev Event, log []*Call, rr ReconcileResult, l *Live)
+	// MaxStep caps the clock advance per round (0 = follow RequeueAfter): keeps the driver from sleeping through
+	// a long canary duration when only the short-term reaction is of interest.
+	MaxStep time.Duration
 	// Resume: first remove the rolling-update-paused / rollout-frozen annotations (a legal user action).
 	Resume bool
 	// SkipJumps: do not perform the +3/+6/+11 min persistence jumps.
@@ -237,6 +240,9 @@ func Closure(t *testing.T, sc *Scenario, s *State, o ClosureOpts) ClosureResult 
 			}
 			if step < time.Second {
 				step = time.Second
+			}
+			if o.MaxStep > 0 && step > o.MaxStep {
+				step = o.MaxStep
 			}
 			time.Sleep(step.Truncate(time.Second) + time.Second*0)
 		}
